@@ -419,8 +419,15 @@ impl<'a> Socket<'a> {
                             packet.set_checksum(0);
                         }
 
+                        // The header checksum was filled in or zeroed just above: parse
+                        // without verifying it. (With the checksum left to the device on
+                        // transmit but verified on receive, verification would reject the
+                        // zeroed field and drop every packet.)
                         let packet = Ipv4Packet::new_unchecked(&*packet.into_inner());
-                        let ipv4_repr = match Ipv4Repr::parse(&packet, _checksum_caps) {
+                        let ipv4_repr = match Ipv4Repr::parse(
+                            &packet,
+                            &crate::phy::ChecksumCapabilities::ignored(),
+                        ) {
                             Ok(x) => x,
                             Err(_) => {
                                 net_trace!("raw: malformed ipv4 packet in queue, dropping.");
